@@ -50,12 +50,12 @@ REQUIRED_CLASSES = ['resume_exploring_pending', 'resume_sampling_cache',
 
 def plan(tier):
     if tier == 'quick':
-        return dict(shards=16, budget_s=60, examples=3)
+        return dict(shards=16, budget_s=75, examples=3)
     return dict(shards=16, budget_s=1100, examples=14)
 
 
 @st.composite
-def cases(draw):
+def cases(draw, drain=False):
     d = draw(st.integers(2, 4))
     spec = draw(pr.problem_specs(
         d=d, families=['gauss', 'twomax', 'banana', 'rfunnel', 'halfspace',
@@ -65,13 +65,22 @@ def cases(draw):
         priors=['identity', 'identity', 'inplace', 'dictfn', 'Prior']))
     # large batches drain a bound's 1000-point proposal cache several times
     # within one case (cache refills between two checkpoints)
-    n_batch = draw(st.sampled_from([1, 2, 3, 5, 8, 13, 100, 250]))
-    cfg = draw(sl.configs(d, networks=(0, 0, 1),
+    n_batch = draw(st.sampled_from([100, 250] if drain else
+                                   [1, 2, 3, 5, 8, 13, 100, 250]))
+    cfg = draw(sl.configs(d, networks=(0,) if drain else (0, 0, 1),
                           pools=('none', 'none', 'none', 'spool2'),
                           batch=st.just(n_batch), small_update=False,
                           max_live=int(min(80, max(4 * d + 4, 5 * n_batch)))))
     cfg['f_live'] = draw(st.sampled_from([0.8, 0.6, 0.4]))
     cfg['n_eff'] = draw(st.sampled_from([100, 400, 2000]))
+    if drain:
+        # stratum: exploration ends early and the sampling phase - batch
+        # after batch into existing shells with no full checkpoint write in
+        # between - is long enough for the proposal caches of both levels
+        # (nautilus bound and its outer union) to be refilled several times
+        # between a resume and the end of the run
+        cfg['f_live'] = 0.8
+        cfg['n_eff'] = 10 ** 5
     if spec['family'] == 'wrap':
         cfg['periodic'] = [0]
     n_total = draw(st.sampled_from([25, 40, 60, 90]))
@@ -152,6 +161,7 @@ def run_case(case, tier='quick', only_k=None):
                 cache = bool(s.explored and any(
                     len(getattr(b, 'points', [])) > 0 for b in s.bounds[1:]))
                 marks.append(dict(k=k, digest=digest(s), file=f,
+                                  internal=sl.internal_digest(s),
                                   explored=bool(s.explored), pending=pend,
                                   cache=cache, n_like=int(s.n_like),
                                   n_log=len(A.problem.log)))
@@ -227,6 +237,7 @@ def run_case(case, tier='quick', only_k=None):
         if only_k is not None:
             full = {only_k} & set(range(1, K))
         nt = []
+        n_steered = 0
         for m in marks[:-1]:
             kk = m['k']
             if only_k is not None and kk != only_k:
@@ -245,6 +256,14 @@ def run_case(case, tier='quick', only_k=None):
                          '%d: %r' % (kk, K, e))
                 continue
             labs.append(B)
+            # budget steering, not an oracle: a resumed object whose
+            # internal state (caches, counters, generator) is not that of
+            # the object it replaces is followed to the end of the run
+            if (mode == 'short' and tier != 'thorough' and n_steered < 4 and
+                    sl.internal_digest(B.sampler) != m['internal']):
+                mode = 'full'
+                n_steered += 1
+                res.count('resumes-steered-to-full')
             res.count('resumes-' + mode)
             try:
                 if int(B.sampler.n_like) != m['n_like']:
@@ -354,6 +373,10 @@ def replay(case):
 def shard(ctx, tier, i, n):
     def rc(case):
         return run_case(case, tier=tier)
+    if i % 4 == 0:
+        hyp_generate(ctx, cases(drain=True), rc, 1, tag='drain',
+                     shrink_budget_s=120, max_shrink_buckets=1,
+                     case_timeout=600)
     hyp_generate(ctx, cases(), rc, plan(tier)['examples'],
                  shrink_budget_s=120, max_shrink_buckets=1,
                  case_timeout=600)
